@@ -824,7 +824,8 @@ Definition install (tabs : list htab) (cls : Z) (l : list (option hcoder)) : lis
 (* Huffman table specification check used by decoder and writer: the code
    lengths describe a code in which no word is all ones (Annex C) *)
 Definition htab_code_ok (t : htab) : bool :=
-  let '(_, _, counts, _) := t in let '(sizes, codes) := gen_codes counts in codes_ok sizes codes.
+  let '(_, _, counts, _) := t in
+  forallb (fun x => 0 <=? x) counts && (let '(sizes, codes) := gen_codes counts in codes_ok sizes codes).
 
 Definition scan_info (fc : list fcomp) (sc : list scomp) : option (list (nat * Z * Z * Z * Z)) :=
   (* per scan component: frame index, H, V, Td, Ta *)
@@ -833,6 +834,43 @@ Definition scan_info (fc : list fcomp) (sc : list scomp) : option (list (nat * Z
              | Some (i, (_, h, v, _)) => Some (i, h, v, td, ta)
              | None => None
              end) sc.
+
+(* everything a scan needs from the tables/frame state, shared by decoder and writer *)
+Record scan_ctx := {
+  sx_info : list (nat * Z * Z * Z * Z);
+  sx_geom : geom;
+  sx_hv : list (Z * Z);
+  sx_coders : coders;
+  sx_pos : list (nat * Z * Z);
+  sx_per : Z
+}.
+
+Definition scan_setup (st : dstate) (sc : list scomp) : option scan_ctx :=
+  match ds_sof st with
+  | None => None
+  | Some (n, p, y, x, fc) =>
+    match scan_info fc sc with
+    | None => None
+    | Some info =>
+      let g := geom_of y x fc in
+      let hv := map (fun i : nat * Z * Z * Z * Z => let '(_, h, v, _, _) := i in (h, v)) info in
+      Some {| sx_info := info; sx_geom := g; sx_hv := hv;
+              sx_coders := map (fun i : nat * Z * Z * Z * Z => let '(_, _, _, td, ta) := i in
+                                  (get_coder (ds_dc st) td, get_coder (ds_ac st) ta)) info;
+              sx_pos := scan_positions g hv;
+              sx_per := ds_ri st * blocks_per_mcu hv |}
+    end
+  end.
+
+(* blocks of a scan, tagged with frame component index and block coordinates *)
+Definition place (cx : scan_ctx) (blocks : list (nat * list Z)) : list (nat * Z * Z * list Z) :=
+  map (fun pb : (nat * Z * Z) * (nat * list Z) =>
+         let '((j, r, c), (_, zz)) := pb in
+         let '(i, _, _, _, _) := nth j (sx_info cx) (O, 0, 0, 0, 0) in (i, r, c, zz))
+      (combine (sx_pos cx) blocks).
+
+Definition add_out (st : dstate) (placed : list (nat * Z * Z * list Z)) : dstate :=
+  {| ds_sof := ds_sof st; ds_dc := ds_dc st; ds_ac := ds_ac st; ds_ri := ds_ri st; ds_out := ds_out st ++ placed |}.
 
 Definition d_step (st : dstate) (s : segment) : option dstate :=
   match s with
@@ -847,29 +885,14 @@ Definition d_step (st : dstate) (s : segment) : option dstate :=
         Some {| ds_sof := Some (n, p, y, x, comps); ds_dc := ds_dc st; ds_ac := ds_ac st; ds_ri := ds_ri st; ds_out := ds_out st |}
       else None                                  (* only sequential Huffman is decoded *)
   | SegSOS sc ss se ah al first rest =>
-      match ds_sof st with
+      match scan_setup st sc with
       | None => None
-      | Some (n, p, y, x, fc) =>
-        match scan_info fc sc with
+      | Some cx =>
+        match dec_scan (sx_coders cx) (length sc) (sx_per cx)
+                       (map (fun p : nat * Z * Z => let '(j, _, _) := p in j) (sx_pos cx))
+                       (first :: map snd rest) with
         | None => None
-        | Some info =>
-          let g := geom_of y x fc in
-          let hv := map (fun i : nat * Z * Z * Z * Z => let '(_, h, v, _, _) := i in (h, v)) info in
-          let cs := map (fun i : nat * Z * Z * Z * Z => let '(_, _, _, td, ta) := i in
-                           (get_coder (ds_dc st) td, get_coder (ds_ac st) ta)) info in
-          let pos := scan_positions g hv in
-          let per := ds_ri st * blocks_per_mcu hv in
-          match dec_scan cs (length sc) per (map (fun p : nat * Z * Z => let '(j, _, _) := p in j) pos)
-                         (first :: map snd rest) with
-          | None => None
-          | Some blocks =>
-            let placed := map (fun pb : (nat * Z * Z) * (nat * list Z) =>
-                                 let '((j, r, c), (_, zz)) := pb in
-                                 let '(i, _, _, _, _) := nth j info (O, 0, 0, 0, 0) in (i, r, c, zz))
-                              (combine pos blocks) in
-            Some {| ds_sof := ds_sof st; ds_dc := ds_dc st; ds_ac := ds_ac st; ds_ri := ds_ri st;
-                    ds_out := ds_out st ++ placed |}
-          end
+        | Some blocks => Some (add_out st (place cx blocks))
         end
       end
   | _ => Some st
@@ -892,24 +915,26 @@ Fixpoint find_block (out : list (nat * Z * Z * list Z)) (i : nat) (r c : Z) : op
    complete an MCU are dropped *)
 Definition comp_coefs := (Z * Z * list (list Z))%type.
 
+Definition coefs_of_state (st : dstate) : option (list comp_coefs) :=
+  match ds_sof st with
+  | None => None
+  | Some (n, p, y, x, fc) =>
+    let g := geom_of y x fc in
+    map_opt (fun ic : nat * fcomp =>
+               let '(i, (_, h, v, _)) := ic in
+               let wb := comp_wb g h in let hb := comp_hb g v in
+               match map_opt (fun rc : Z * Z => option_map to_natural (find_block (ds_out st) i (fst rc) (snd rc)))
+                             (flat_map (fun r => map (fun c => (r, c)) (zrange wb)) (zrange hb)) with
+               | Some bl => Some (wb, hb, bl)
+               | None => None
+               end)
+            (combine (seq 0 (length fc)) fc)
+  end.
+
 Definition t81_decode (s : stream) : option (list comp_coefs) :=
   match d_walk ds0 (st_segs s) with
   | None => None
-  | Some st =>
-    match ds_sof st with
-    | None => None
-    | Some (n, p, y, x, fc) =>
-      let g := geom_of y x fc in
-      map_opt (fun ic : nat * fcomp =>
-                 let '(i, (_, h, v, _)) := ic in
-                 let wb := comp_wb g h in let hb := comp_hb g v in
-                 match map_opt (fun rc : Z * Z => option_map to_natural (find_block (ds_out st) i (fst rc) (snd rc)))
-                               (flat_map (fun r => map (fun c => (r, c)) (zrange wb)) (zrange hb)) with
-                 | Some bl => Some (wb, hb, bl)
-                 | None => None
-                 end)
-              (combine (seq 0 (length fc)) fc)
-    end
+  | Some st => coefs_of_state st
   end.
 
 (* ================================================================= WRITER === *)
@@ -928,6 +953,16 @@ Inductive item :=
 | IScan (fill : nat) (sc : list scomp) (rst_fill : list nat).
 Record choices := { ch_items : list item; ch_eoi_fill : nat }.
 
+(* the blocks the writer codes in a scan, in coding order *)
+Definition scan_blocks (im : image) (cx : scan_ctx) : list (nat * list Z) :=
+  map (fun p : nat * Z * Z =>
+         let '(j, r, c) := p in
+         let '(i, h, _, _, _) := nth j (sx_info cx) (O, 0, 0, 0, 0) in
+         (j, to_zigzag (nth (Z.to_nat (r * scan_wb (sx_geom cx) (sx_hv cx) h + c)) (nth i (im_coefs im) []) [])))
+      (sx_pos cx).
+
+(* the writer threads the same state as the decoder: after a scan, ds_out records
+   (component, row, column, block) of everything it has written *)
 Definition w_step (im : image) (st : dstate) (it : item) : option (dstate * (nat * segment)) :=
   match it with
   | IMisc f s =>
@@ -939,41 +974,40 @@ Definition w_step (im : image) (st : dstate) (it : item) : option (dstate * (nat
       let s := SegSOF n (im_p im) (im_y im) (im_x im) (im_comps im) in
       match d_step st s with Some st' => Some (st', (f, s)) | None => None end
   | IScan f sc rf =>
-      let fc := im_comps im in
-      match scan_info fc sc with
+      match scan_setup st sc with
       | None => None
-      | Some info =>
-        let g := geom_of (im_y im) (im_x im) fc in
-        let hv := map (fun i : nat * Z * Z * Z * Z => let '(_, h, v, _, _) := i in (h, v)) info in
-        let cs := map (fun i : nat * Z * Z * Z * Z => let '(_, _, _, td, ta) := i in
-                         (get_coder (ds_dc st) td, get_coder (ds_ac st) ta)) info in
-        let pos := scan_positions g hv in
-        let per := ds_ri st * blocks_per_mcu hv in
-        let blocks := map (fun p : nat * Z * Z =>
-                             let '(j, r, c) := p in
-                             let '(i, h, _, _, _) := nth j info (O, 0, 0, 0, 0) in
-                             (j, to_zigzag (nth (Z.to_nat (r * scan_wb g hv h + c)) (nth i (im_coefs im) []) []))) pos in
-        match enc_scan cs (length sc) per blocks with
+      | Some cx =>
+        let blocks := scan_blocks im cx in
+        match enc_scan (sx_coders cx) (length sc) (sx_per cx) blocks with
         | Some (d0 :: ds) =>
-            Some (st, (f, SegSOS sc 0 63 0 0 d0 (combine (map (fun k => nth k rf O) (seq 0 (length ds))) ds)))
+            Some (add_out st (place cx blocks),
+                  (f, SegSOS sc 0 63 0 0 d0 (combine (map (fun k => nth k rf O) (seq 0 (length ds))) ds)))
         | _ => None
         end
       end
   end.
 
-Fixpoint w_walk (im : image) (st : dstate) (its : list item) : option (list (nat * segment)) :=
+Fixpoint w_walk (im : image) (st : dstate) (its : list item) : option (list (nat * segment) * dstate) :=
   match its with
-  | [] => Some []
+  | [] => Some ([], st)
   | it :: t =>
     match w_step im st it with
     | None => None
-    | Some (st', fs) => match w_walk im st' t with Some l => Some (fs :: l) | None => None end
+    | Some (st', fs) => match w_walk im st' t with Some (l, stf) => Some (fs :: l, stf) | None => None end
     end
   end.
 
 Definition layout (ch : choices) (im : image) : option stream :=
   match w_walk im ds0 (ch_items ch) with
-  | Some segs => Some {| st_segs := segs; st_eoi_fill := ch_eoi_fill ch |}
+  | Some (segs, _) => Some {| st_segs := segs; st_eoi_fill := ch_eoi_fill ch |}
+  | None => None
+  end.
+
+(* what the writer itself recorded as written: the coefficient arrays of the image
+   restricted to the real blocks (used to state writer_sound for the entropy layer) *)
+Definition written (ch : choices) (im : image) : option (list comp_coefs) :=
+  match w_walk im ds0 (ch_items ch) with
+  | Some (_, stf) => coefs_of_state stf
   | None => None
   end.
 
